@@ -115,7 +115,7 @@ Section Readers.
   (* ---------------------------------------------------------------- the raw attribute *)
 
   (* the text NMEASentence.__init__ receives: the line without surrounding white space and without its tag block *)
-  Definition sentence_text (l : bytes) : bytes := match pre_process l with Ok (rs, _) => rs | Raise _ => [] end.
+  Definition line_sentence_text (l : bytes) : bytes := match pre_process l with Ok (rs, _) => rs | Raise _ => [] end.
 
   Lemma set_tag_block_raw : forall s t, c_raw (sentence_common (sentence_set_tag_block s t)) = c_raw (sentence_common s).
   Proof. intros [a|g] t; reflexivity. Qed.
@@ -128,25 +128,25 @@ Section Readers.
   Qed.
 
   (* the raw attribute of whatever a line parses to *)
-  Theorem produce_raw : forall l s, produce l = Ok s -> c_raw (sentence_common s) = sentence_text l.
+  Theorem produce_raw : forall l s, produce l = Ok s -> c_raw (sentence_common s) = line_sentence_text l.
   Proof.
     intros l s H. unfold produce in H. destruct (Nat.eqb _ _); [discriminate|].
     apply bind_ok in H as [[rs tb] [Hpre H]]. cbv beta iota in H.
-    apply bind_ok in H as [s0 [Hs0 H]]. unfold sentence_text. rewrite Hpre.
+    apply bind_ok in H as [s0 [Hs0 H]]. unfold line_sentence_text. rewrite Hpre.
     pose proof (produce_inner_raw rs s0 Hs0) as R.
     destruct tb as [t|]; [destruct (nonempty t)|]; injection H as <-; rewrite ?set_tag_block_raw; exact R.
   Qed.
 
-  Lemma sentence_text_strip : forall a b, strip a = strip b -> sentence_text a = sentence_text b.
-  Proof. intros a b H. unfold sentence_text, pre_process. rewrite H. reflexivity. Qed.
+  Lemma sentence_text_strip : forall a b, strip a = strip b -> line_sentence_text a = line_sentence_text b.
+  Proof. intros a b H. unfold line_sentence_text, pre_process. rewrite H. reflexivity. Qed.
 
-  Lemma sentence_text_unterminated : forall l c, unterminated l c -> sentence_text l = sentence_text c.
+  Lemma sentence_text_unterminated : forall l c, unterminated l c -> line_sentence_text l = line_sentence_text c.
   Proof. intros l c H. apply sentence_text_strip, strip_unterminated, H. Qed.
 
   (* a line without tag block and without surrounding white space is its own sentence text *)
-  Lemma sentence_text_plain : forall x r, strip (x :: r) = x :: r -> x <> 92 -> sentence_text (x :: r) = x :: r.
+  Lemma sentence_text_plain : forall x r, strip (x :: r) = x :: r -> x <> 92 -> line_sentence_text (x :: r) = x :: r.
   Proof.
-    intros x r Hs Hx. unfold sentence_text, pre_process. rewrite Hs. rewrite py_index_0. cbn [bind].
+    intros x r Hs Hx. unfold line_sentence_text, pre_process. rewrite Hs. rewrite py_index_0. cbn [bind].
     unfold TAG_BLOCK_START. replace (x =? 92) with false by (symmetry; apply Z.eqb_neq; exact Hx). reflexivity.
   Qed.
 
